@@ -2,7 +2,8 @@
 (***************************************************************************)
 (* cmd/seccomp-profiler/main.go doObjdump + hashBinary and the cache file  *)
 (* (C17): two consecutive profiler runs on one binary, the first of which  *)
-(* may be killed at any step, see its disassembler fail, or have a write   *)
+(* may be killed or interrupted by a catchable signal at any step, see its *)
+(* disassembler fail, or have a write                                      *)
 (* to the file fail part-way.                                              *)
 (*                                                                         *)
 (* Disk                                                                    *)
@@ -45,6 +46,10 @@
 (*                       its own, written before the listing is complete:  *)
 (*                       a disturbed run leaves the new hash next to the   *)
 (*                       complete listing of an OLDER version of the binary*)
+(*   "InterruptEndsDump" (a seeded change) a catchable signal (SIGINT,      *)
+(*                       SIGTERM) stops the disassemblers and the listing  *)
+(*                       written so far is flushed, closed and renamed as  *)
+(*                       if the tool had finished                          *)
 (* tempOK: whether a temporary file can be created next to the cache file  *)
 (* (its name is longer than the cache file's: for binary names of 240 and  *)
 (* more characters it exceeds NAME_MAX while the cache file's does not).   *)
@@ -153,6 +158,16 @@ Kill ==
   /\ pc' = "dead" /\ used' = -1
   /\ fate' = Append(fate, pc)
   /\ UNCHANGED <<cache, tmp, buf, sent, run, toolOK, failAt, rebuilt, where, tempOK>>
+\* SIGINT / SIGTERM / SIGHUP between any two steps of the first run: the program installs no handler, so the process ends like a
+\* killed one (no deferred clean-up runs, the disk keeps what was written); the disassembler may go on writing into the broken pipe
+Interrupt ==
+  /\ run = 1 /\ pc \notin {"done", "dead"}
+  /\ IF "InterruptEndsDump" \in Dev /\ pc = "dump"
+     THEN /\ pc' = (IF HasData THEN "flush" ELSE "close") /\ UNCHANGED used
+          /\ fate' = Append(fate, "interrupted")
+     ELSE /\ pc' = "dead" /\ used' = -1
+          /\ fate' = Append(fate, "signal")
+  /\ UNCHANGED <<cache, tmp, buf, sent, run, toolOK, failAt, rebuilt, where, tempOK>>
 \* the next run: a normal one (tool present and succeeding, no write failures); the binary may have been rebuilt
 NextRun ==
   /\ run = 1 /\ pc \in {"done", "dead"}
@@ -162,7 +177,7 @@ NextRun ==
   /\ fate' = Append(fate, IF pc = "dead" THEN "killed" ELSE IF used = -1 THEN "failed" ELSE "ok")
   /\ where' = IF InPlace THEN "cache" ELSE "tmp"
   /\ UNCHANGED <<tmp, rebuilt, tempOK>>
-Next == Compare \/ Create \/ HashLine \/ Spill \/ (run = 1 /\ SpillFails) \/ Dump \/ FailedCleanup \/ Close \/ Rename \/ Use \/ Kill \/ NextRun
+Next == Compare \/ Create \/ HashLine \/ Spill \/ (run = 1 /\ SpillFails) \/ Dump \/ FailedCleanup \/ Close \/ Rename \/ Use \/ Kill \/ Interrupt \/ NextRun
 Spec == Init /\ [][Next]_vars
 
 \* C17: whatever happened to the first run, the second one parses a complete listing of
